@@ -195,6 +195,33 @@ def rule_iso_claim(ctx):
                         r.bad(Finding("iso-claim", q, f"re-asserts {owner}.left_inds while applying `{fname}` to the data", where=where, operand="apply"))
                     continue
                 if data is None:
+                    # re-assertion without new data: sound only if the owner's data was not rewritten between the
+                    # moment the flag was read (a local snapshot `x = t.left_inds`) and this call
+                    lv = kws["left_inds"]
+                    snap = None
+                    if isinstance(lv, ast.Name):
+                        for a_ in ast.walk(g.node):
+                            if isinstance(a_, ast.Assign) and any(isinstance(t_, ast.Name) and t_.id == lv.id for t_ in a_.targets) \
+                                    and isinstance(a_.value, ast.Attribute) and a_.value.attr in ("left_inds", "_left_inds") and a_.lineno < c.lineno:
+                                snap = a_
+                    if snap is not None:
+                        between = []
+                        for x_ in ast.walk(g.node):
+                            if isinstance(x_, ast.Call) and isinstance(x_.func, ast.Attribute) and src_of(x_.func.value) == owner and snap.lineno < x_.lineno < c.lineno:
+                                nm = x_.func.attr
+                                rewrites = nm.endswith("_") and nm.rstrip("_") not in ("conj", "transpose", "transpose_like", "reindex", "retag", "add_tag", "drop_tags", "astype") \
+                                    or (nm == "modify" and any(k.arg in ("data", "apply") for k in x_.keywords))
+                                if rewrites:
+                                    between.append(x_)
+                            if isinstance(x_, ast.AugAssign) and src_of(x_.target) == owner and snap.lineno < x_.lineno < c.lineno:
+                                between.append(x_)
+                        if between:
+                            r.bad(Finding(
+                                "iso-claim", q,
+                                f"re-asserts the flag read from {owner}.left_inds at line {snap.lineno} after `{src_of(between[0])[:40]}` (line {between[0].lineno}) rewrote "
+                                f"{owner}'s data in place: unless that operation is unitary the tensor is no longer an isometry but is flagged as one",
+                                where=where, operand="stale-snapshot"))
+                            continue
                     r.ok(f"{q}:{fn}[no data]", nontrivial=False)
                     continue
                 kind = _classify_data(data, owner, defs)
